@@ -1,6 +1,6 @@
 """Property -> rules mapping."""
 from .core import Ctx
-from .rules import k1, reclaim, schemes, seqlock, vyukov, harris
+from .rules import k1, reclaim, schemes, seqlock, vyukov, harris, queues
 
 ALL_FILES = [".hpp"]
 RECL = ["reclamation/"]
@@ -71,6 +71,55 @@ def C02(ctx):
     reclaim.reclaim_after_unlink(ctx, [".hpp"])
     scheme_rules(ctx)
     return ("Decides structural necessary conditions of exactly-once destruction.", "eventual reclamation; exactly-once under racing adoption")
+
+
+def C04(ctx):
+    ctx.only_skip = ("VBQ.", "KF.")
+    k1_rules(ctx, "C04")
+    reclaim.reclaim_after_unlink(ctx, FILES["C04"])
+    queues.michael_scott(ctx)
+    queues.ramalhete(ctx)
+    queues.nikolaev(ctx)
+    harris.use_after_move(ctx, FILES["C04"])
+    return ("Decides structural necessary conditions of the three unbounded FIFO queues: link-before-swing and head/tail hand-over rules, ticket "
+            "bounds and slot invalidation of the Ramalhete queue in every configuration, sticky finalisation flag of the SCQ (finite evaluation), "
+            "construct-before-publish with a finalizable enqueue, reclaim after unlink, memory orders.", "linearizability (order, uniqueness, emptiness verdicts)")
+
+
+def C05(ctx):
+    ctx.only_skip = ("MSQ.", "RQ.", "KF.")
+    k1_rules(ctx, "C05")
+    queues.vyukov_bounded(ctx)
+    queues.nikolaev(ctx)
+    harris.use_after_move(ctx, FILES["C05"])
+    return ("Decides the cell protocol of vyukov_bounded_queue (claim-before-touch, payload before sequence publication, sequence arithmetic by "
+            "finite evaluation, weak vs strong failure conditions), construct-before-publish / destroy-before-free of nikolaev_bounded_queue, "
+            "SCQ flag rule, memory orders.", "FIFO linearizability; full/empty verdict semantics; SCQ threshold arithmetic")
+
+
+def C06(ctx):
+    ctx.only_skip = ("MSQ.", "RQ.", "VBQ.", "NQ.", "SCQ.")
+    k1_rules(ctx, "C06")
+    reclaim.reclaim_after_unlink(ctx, FILES["C06"])
+    queues.kfifo(ctx)
+    harris.use_after_move(ctx, FILES["C06"])
+    return ("Decides: ABA tag discipline of every tagged CAS, release-after-commit in push, value only after winning the slot CAS, deleted-before-"
+            "advance in the unbounded variant, index field fit of the bounded variant (constructor check surviving NDEBUG), memory orders.",
+            "the k-relaxation bound and emptiness verdicts")
+
+
+def C07(ctx):
+    ctx.only = ("K1.", "OWN.", "RQ.", "NQ.", "UAM.", "KF.protocol", "VBQ.cell-protocol", "K4.reclaim-after-unlink")
+    k1_rules(ctx, "C07")
+    queues.michael_scott(ctx)
+    queues.ramalhete(ctx)
+    queues.nikolaev(ctx)
+    queues.vyukov_bounded(ctx)
+    queues.kfifo(ctx)
+    harris.use_after_move(ctx, FILES["C07"])
+    return ("Decides element ownership rules: move-out then destroy exactly once in every pop path, release of unique_ptr ownership only after the "
+            "raw pointer was stored, destructor ranges bounded by the container's own counters, rollback paths, no use of moved-from values.",
+            "exactly-once delivery under racing pops")
 
 
 def C08(ctx):
@@ -151,7 +200,7 @@ def C14(ctx):
             "load/store/update, reader/writer slot-index agreement, memory orders.", "absence of torn reads under all interleavings")
 
 
-PROPS = {"C14": C14, "C11": C11, "C08": C08, "C09": C09, "C01": C01, "C02": C02, "C03": C03, "C10": C10, "C17": C17, "C18": C18}
+PROPS = {"C04": C04, "C05": C05, "C06": C06, "C07": C07, "C14": C14, "C11": C11, "C08": C08, "C09": C09, "C01": C01, "C02": C02, "C03": C03, "C10": C10, "C17": C17, "C18": C18}
 
 
 def run(prop, tier):
